@@ -36,6 +36,9 @@ CHECKS = {
  "C12": ("exploration", "lock-protocol holder-table monitor on the SpinLock API under stress + free-running concurrent rounds on a real node (conflict families, selectors, concurrent Play) under the Go race detector; each round's call/return history is checked for an explaining sequential order with porcupine against the statement-level model, plus contention-refusal, selection-disjointness and quiescent-state (pool validity, conservation, canon, live==twin) auditors",
          "Runtime monitoring of real concurrent executions (hundreds of rounds quick, thousands thorough) with an offline linearizability check per round; interleavings are those the scheduler produced, not an enumeration.",
          "Trusted: porcupine v1.3.0; the statement-level model; race reports count only when both frames lie in spin_lock.go / utxo.go / utxo_cache.go / xmodel.go / state.go.", "DESIGN.md §3 C12"),
+ "C14": ("exploration", "vote-counting model vs DefaultSaftyRules.CheckProposal / CheckVote / CalVotesThreshold over all multisets of signature entries (valid / repeated / non-member / wrong id / damaged / key mismatch, real ECDSA signatures) for n<=4 exhaustively and sampled for n=5..10; the same certificates through tdpos / xpoa CheckMinerMatch over a stub ledger with three validator sets; vote streams into a real Smr collector",
+         "Exhaustive over the small-n box (recorded in coverage.exhaustive_box), sampled beyond; runtime oracle = executable model written from the statement.",
+         "Trusted: the 140-line vote-counting model (cmd/c14/model.go); ECDSA / SHA-256.", "DESIGN.md §3 C14"),
 }
 NOT_YET = "check not built yet in this session (work in progress; see DESIGN.md for the planned monitor)"
 ALL = ["C%02d" % i for i in range(1, 21)]
@@ -66,7 +69,7 @@ def main():
             "guard": "verif",
             "enable": "go build -tags verif (bin/check builds every check binary from /repo's working tree through a replace directive)",
             "baseline_off_cmd": BASE,
-            "source_commits": [],
+            "source_commits": ["46bedf2"],
             "add_only": True,
         },
         "engines": [{"name": "harness", "path": "/verif/harness", "serves_properties": [c["property_id"] for c in checks],
